@@ -75,6 +75,24 @@ def gen_cases(ctx):
         if k % 2:
             l1, u1, l2, u2 = l2, u2, l1, u1
         cases.append({"cone": cn, "W": cones[cn][0], "l1": l1, "u1": u1, "l2": l2, "u2": u2, "rel": "int-lower", "offset": "0", "int_lower": True})
+    # mirrored / rotated two-facet cones (a cost-type objective put into the cone: W D with D = diag(+-1, +-1)), deterministic:
+    # the boundary of r2 + C that faces r1 is then a top or right edge of r2; nested boxes and boxes shifted into the cone
+    for k in range(48 if ctx.quick else 480):
+        base = [[[2, -1], [-1, 2]], [[3, -2], [-2, 3]], [[1, 0], [0, 1]], [[3, -1], [-1, 3]]][k % 4]
+        sg = [(1, -1), (-1, 1), (-1, -1), (1, 1)][(k // 4) % 4]
+        W = [[row[0] * sg[0], row[1] * sg[1]] for row in base]
+        l2 = [Fraction(drng.randint(-4, 4), 2) for _ in range(2)]
+        u2 = [a + Fraction(drng.choice([2, 3, 4, 6]), 2) for a in l2]
+        if k % 3 == 0:
+            q = [(b - a) / 4 for a, b in zip(l2, u2)]
+            l1 = [a + x for a, x in zip(l2, q)]; u1 = [b - x for b, x in zip(u2, q)]          # nested strictly inside
+            rel = "mirrored-nested"
+        else:
+            t = Fraction(drng.choice([1, 2, 3, 5]), 2)
+            d = [sg[0] * t, sg[1] * t]                                                        # interior direction of the mirrored cone
+            l1 = [a + x for a, x in zip(l2, d)]; u1 = [l + Fraction(drng.choice([1, 2, 3]), 4) for l in l1]
+            rel = "mirrored-above"
+        cases.append({"cone": "mirrored", "W": W, "l1": l1, "u1": u1, "l2": l2, "u2": u2, "rel": rel, "offset": "0"})
     return cases
 
 
